@@ -235,7 +235,7 @@ def _tracked_booleans(fn: ast.AST) -> List[str]:
 
 
 def interp_function(fi: FuncInfo, role: str, callable_args: Set[str], helpers: Dict[str, Set[int]], track_state: bool = False,
-                    fresh_properties: Optional[Set[str]] = None) -> Tuple[List[str], int]:
+                    fresh_properties: Optional[Set[str]] = None, arg_attrs_alias: bool = False) -> Tuple[List[str], int]:
     ctx = fi.params[0]
     tracked = _tracked_booleans(fi.node)
     all_problems: List[str] = []
@@ -263,7 +263,7 @@ def interp_function(fi: FuncInfo, role: str, callable_args: Set[str], helpers: D
             if len({t.split("==")[0].strip() for t in eq_true}) < len(eq_true):
                 continue
             npaths += 1
-            si = StorageInterp([a for a in fi.params[1:]], callable_args, helpers, self_name=(fi.params[0] if track_state else None))
+            si = StorageInterp([a for a in fi.params[1:]], callable_args, helpers, self_name=(fi.params[0] if track_state else None), arg_attrs_alias=arg_attrs_alias)
             if track_state and fresh_properties:
                 # properties that compute a fresh tensor on every read are not state
                 for pn in fresh_properties:
